@@ -65,6 +65,42 @@ def rules(ctx):
         ctx.decide(o, not bad, "cycles/cycle_lookup/empty_cycles all rebuilt",
                    "%s inherits %s unchanged from self" % (fn, ", ".join(bad)), loc=ss[0].instr.line(), sample=row)
     common.lost_update_rule(ctx, "R3", TRANSITION, sites)
+    # definition agreement: the violation total is a sum of positive parts, the counter total is a plain sum
+    for st in sites:
+        if st.self_param is None:
+            continue
+        fdx = ctx.an.fd(st.fn)
+        ops = dict(zip(st.instr.rv["fields"], st.instr.ops)) if st.kind == "aggregate" else {}
+        if not ops:
+            continue
+        cnt = fdx.slice_operand_pure(st.instr, ops["total_maintenance_counter"])
+        vio = fdx.slice_operand_pure(st.instr, ops["total_maintenance_violation"])
+        o = ctx.ob("R2.%s.counter-is-a-plain-sum" % common.short(st.fn), "T9", st.fn,
+                   "%s: the total counter is updated without clamping, the total violation with positive parts" % common.short(st.fn))
+        o.loc = st.instr.line()
+        cmax = has_method(cnt["atoms"], "core::cmp::Ord::max")
+        vmax = has_method(vio["atoms"], "core::cmp::Ord::max")
+        ctx.decide(o, vmax and not cmax and field(TRANSITION, "total_maintenance_counter") in cnt["atoms"]
+                   and field(TRANSITION, "total_maintenance_violation") in vio["atoms"],
+                   "violation uses max(0), counter does not",
+                   ("the counter total is clamped with max(..): cycles with slack (negative counter) make every neighbour look better, the "
+                    "transition search never terminates" if cmax else "the violation total is not built from positive parts / old totals"),
+                   loc=st.instr.line())
+    # the empty-cycle entry removed is the one of the cycle being filled
+    o, fdx = ctx.require_fn("R3.add_vehicle_at_the_end.removes-own-empty-entry", "T1", TR("add_vehicle_at_the_end"),
+                            "add_vehicle_at_the_end removes exactly the entry of the target cycle from the list of empty cycles")
+    if fdx is not None:
+        ok = False
+        for l in range(len(fdx.body.locals)):
+            c = prov.classify_local(fdx, l, 1)
+            if c.kind == "changed" and c.field == ("empty_cycles",):
+                for w in c.writes:
+                    sl = fdx.slice(seed_defs=[w], control=False)
+                    if "param:3" in sl["atoms"]:
+                        ok = True
+        ctx.decide(o, ok, "the write to empty_cycles depends on new_cycle_idx",
+                   "the entry removed from empty_cycles does not depend on the target cycle index (e.g. pop()): a still-empty cycle is "
+                   "forgotten and an occupied one stays listed as reusable")
     inf_conversions(ctx, "R4")
     # R5: optimisation never worsens
     objective.level_order(ctx, "R5.transition-objective", TLS + "::transition_objective",
